@@ -139,7 +139,8 @@ class Builder:
 
     def peer(self):
         r = self.r
-        s = r.pick(self.srcs)
+        live = [i for i in self.active.values()]
+        s = self.srcs[r.pick(live)] if live and r.chance(4, 5) else r.pick(self.srcs)
         return s[0], s[4]
 
     def retire(self, addr, fam):
@@ -152,6 +153,9 @@ class Builder:
                 self.retired.add(cur)
                 self.active[(addr, fam)] = i
                 return
+        # no successor: the peer stays away (rarely: the ended session's Source is used again)
+        if self.r.chance(5, 6):
+            del self.active[(addr, fam)]
 
     def op_misc(self, kind):
         r = self.r
